@@ -491,6 +491,10 @@ def _vf_call(f, *a, **k):
         if f is datetime.timedelta and (any(type(x) is core.SymFloat for x in a)
                                         or any(type(x) is core.SymFloat for x in k.values())):
             return _timedelta_model(a, k)
+        if f is str and len(a) == 1 and not k and (type(a[0]).__module__ or '').startswith('ZConfig') \
+                and type(getattr(type(a[0]), '__str__', None)) is types.FunctionType:
+            # str(obj) with a __str__ written in Python: the C wrapper would refuse a symbolic result
+            return type(a[0]).__str__(a[0])
         if f in _BUILTIN_TYPES:
             if a and _sym(a[0]):
                 return _builtin_func(f, a, k)
@@ -842,11 +846,28 @@ def install_urllib():
     return mod
 
 
+def _sym_textwrap_indent(text, prefix, predicate=None):
+    """textwrap.indent on a symbolic string: the stdlib function re-stated over the proxies' own
+    splitlines(keepends) / strip (which are modelled), so that the line boundaries it sees are
+    exactly str.splitlines' ones"""
+    out = ''
+    for line in text.splitlines(True):
+        keep = predicate(line) if predicate is not None else line.strip()
+        out = out + ((prefix + line) if keep else line)
+    return out
+
+
+def _install_small_stubs():
+    import textwrap
+    PERMANENT_STUBS[textwrap.indent] = _sym_textwrap_indent
+
+
 _installed = [False]
 
 
 def install(repo_src=None):
     """Install the hook.  Must run before ZConfig is imported."""
+    _install_small_stubs()
     if _installed[0]:
         return
     if 'ZConfig' in sys.modules:
